@@ -38,3 +38,20 @@ claim("C15",
       "Table part: SPACE_GROUP_INFO point group is proper <=> the Hall-database group is Sohncke, for all 230 groups (exactly 65).",
       "A-SPG: spglib returns the complete set of unimodular integer rotations of the detected group; LU error bound for det; spglib Hall database as reference.",
       "symbolic execution with loop invariant + z3; exhaustive table obligations", "DESIGN.md §3 C15")
+
+claim("C13",
+      "Representation invariant of Cluster ('the cached distance sub-matrix is None or was computed for exactly the current index set') proved to be established by "
+      "Cluster.__init__/merge, left intact by _localize_clusters (loop frame obligations) and re-established by _clean_clusters (loop invariant over a symbolic list of "
+      "heap objects); Cluster.get_dimensionality is executed symbolically against the contract of geometry.get_dimensionality: the call-site obligations "
+      "(matrix coherent with the atoms, radii = clustering radii of these atoms, threshold = clustering threshold) imply result = get_dimensionality(own atoms); idempotence.",
+      "Contract of geometry.get_dimensionality assumed here (its body: C09); sub-matrix lemma not machine-checked; numpy ix_/fancy indexing assumed; radii chain from "
+      "get_clusters' constructor call is covered by the C01 main-loop contract when present.",
+      "symbolic execution over a heap model with loop invariants + z3 (quantified arrays)", "DESIGN.md §3 C13")
+
+claim("C01",
+      "Cluster-algebra pipeline of get_clusters under contract: _localize_clusters (5 nested loops, invariants with ghost done-sets: result pairwise disjoint, subsets of the input, "
+      "no atom lost, duplicate-free, in range), _clean_clusters (kept clusters are non-empty duplicate-free subsets forming one largest bonded component under the DBSCAN contract, "
+      "disjointness preserved), merge (only same-species atoms of the smaller cluster join; species of every atom listed), Cluster.__init__. All for symbolic numbers of atoms and clusters.",
+      "A-SK (DBSCAN = connected components, raises on empty input), A-NP; the heuristic periodic search (get_region) is under an assumed contract; crash-freedom of PeriodicFinder and the prototype-cell "
+      "typestate are not covered; the main loop / _merge_clusters loop are covered only as far as listed in evidence.unproved_conjuncts.",
+      "symbolic execution over a heap model with loop invariants + z3 (quantified arrays); native small-scope replay for refutations", "DESIGN.md §3 C01")
